@@ -7,6 +7,7 @@ import EnrVerif.Props.C02
 import EnrVerif.Props.C03
 import EnrVerif.Props.C04
 import EnrVerif.Props.C05
+import EnrVerif.Props.C05Monitor
 import EnrVerif.Props.C06
 import EnrVerif.Props.C07
 import EnrVerif.Props.C08
